@@ -23,3 +23,6 @@ while read prop sha; do
   git -C /repo checkout -- .
 done < /tmp/drill_list.txt
 git -C /repo status --short
+
+# these runs were made against a modified /repo: put the committed evidence files back
+git -C /verif checkout -- evidence 2>/dev/null
